@@ -1,22 +1,14 @@
-"""Per-property tables used by runner.py."""
+"""Per-property tables used by runner.py: one JSON file per property under tools/props/."""
+import json, os, glob
+_D = os.path.join(os.path.dirname(os.path.abspath(__file__)), "props")
 
 TRUSTED_COMMON = [
     "Coq 8.16.1 kernel (coqc, full .vo build, vm_compute; no native_compute, no -type-in-type, no disabled checks)",
-    "harness/ (Rust): generators, Gallina printers of observed values, native oracles",
+    "harness/ (Rust): generators, Gallina printers of observed values and exported graphs, native oracles",
     "tools/runner.py: sharding, parsing of `failing cases` output, verdict logic",
     "the hand-mirrored relation between each coq/Model/*.v definition and the Rust function it cites, checked only by the correspondence cases of this run",
 ]
-
-# axioms a property's theorems may depend on (Print Assumptions); everything else is a failure
-AXIOM_ALLOW = {}
-
-PROPS = {
-    "C13": {
-        "rule": "cases: 11 scalar types x boundary-heavy integer lists (lengths 1..70, bit arrays of ragged length) "
-                "through from_flattened_array and the ten typed readers, raw byte readers on arbitrary bytes, "
-                "check_type/zero/one on random type trees; distinct = distinct model expression; "
-                "non-trivial = a negative element, an element >= 2^64, a ragged bit array, a mismatched type or a nested type",
-        "trusted": ["serde_json text layer (arbitrary_precision) for the JSON form: tested, not modelled"],
-        "assumes": ["Rust integer arguments lie in [-2^127, 2^128) (union of i128 and u128)"],
-    },
-}
+PROPS = {}
+for f in sorted(glob.glob(os.path.join(_D, "C*.json"))):
+    PROPS[os.path.basename(f)[:-5]] = json.load(open(f))
+AXIOM_ALLOW = {k: v.get("axiom_allow", []) for k, v in PROPS.items()}
